@@ -891,7 +891,7 @@ class Array2D(AbstractArray2D):
 
         return cls.no_mask(
             values=cls.flip_hdu_for_ds9(primary_hdu.data.astype("float")),
-            pixel_scales=primary_hdu.header["PIXSCALE"],
+            pixel_scales=Mask2D.pixel_scales_from_header(primary_hdu.header),
             origin=origin,
             header=Header(header_sci_obj=primary_hdu.header),
         )
